@@ -21,7 +21,7 @@ RULE = (
     "of it) x position of v (origin, destination, both ends) x filters {none, accept-all, reject-all, 6 selective "
     "truth tables, 2 falsy callable objects}; (b) Hypothesis multigraphs with <= 8 vertices and <= 14 links (self-loops, parallel and "
     "mixed-class links, link order diversified by end re-assignments) x filters drawn as truth tables over "
-    "(link index, vertex index).  For every vertex x 3 directions x 3 unknown-handling modes the result (as an "
+    "(link index, vertex index).  Cases run with neighbor caching off or on (then the 9 settings are queried back to back in a generated order).  For every vertex x 3 directions x 3 unknown-handling modes the result (as an "
     "index list, order and multiplicity significant) must equal the reference decision table, "
     "NotImplementedError exactly when the reference raises; plus the FORWARD/BACKWARD multiplicity duality for "
     "no filter and edge-only filters.  Non-trivial = some vertex has >= 2 links of >= 2 kinds, or a self-loop, or "
@@ -51,7 +51,7 @@ def budget(tier):
 
 
 def strategy(tier):
-    return st.builds(lambda g, f: {"g": g, "f": f}, st.one_of(graphs.graph_descs(), graphs.graph_descs(), graphs.graph_descs(), graphs.eq_graph_descs()), graphs.filter_specs_objs)
+    return st.builds(lambda g, f, cache, order: {"g": g, "f": f, "cache": cache, "order": order}, st.one_of(graphs.graph_descs(), graphs.graph_descs(), graphs.graph_descs(), graphs.eq_graph_descs()), graphs.filter_specs_objs, st.booleans(), st.integers(0, 5))
 
 
 _TABLE_FILTERS = [None, {"ft": "pair", "mask": 0xFFFF}, {"ft": "pair", "mask": 0}, {"ft": "pair", "mask": 0, "falsy": True}, {"ft": "edge", "mask": 0b01, "falsy": True}] + [
@@ -68,9 +68,10 @@ def enumerate_cases(tier, shard=0, nshards=1):
         for edges in sharded(configs, shard, nshards):
             for f in _TABLE_FILTERS:
                 yield {"g": {"nv": 2, "vcls": None, "edges": edges, "reassign": []}, "f": f}
+                yield {"g": {"nv": 2, "vcls": None, "edges": edges, "reassign": []}, "f": f, "cache": True, "order": len(edges) + (0 if f is None else f["mask"])}
 
     return gen(), (
-        f"all {len(configs) * len(_TABLE_FILTERS)} rows: 1 or 2 links at one vertex, each of 6 link classes x "
+        f"all {2 * len(configs) * len(_TABLE_FILTERS)} rows (each with neighbor caching off and on): 1 or 2 links at one vertex, each of 6 link classes x "
         f"3 positions of v, x 11 filters (two of them falsy callable objects), each evaluated under 3 directions x 3 unknown-handling modes at both vertices"
     )
 
@@ -86,13 +87,24 @@ def run_real(vs, v, d, u, ff, vi):
 
 
 def check_case(case):
+    from eglib import trav
+
+    # with neighbor caching on, the 9 settings are queried one after the other on the same vertex with the
+    # same filter object, in a generated order: an answer cached for one setting must not serve another
+    with trav.caching(case.get("cache")):
+        return _check_case(case)
+
+
+def _check_case(case):
+    import itertools
+
     vs, ls = graphs.build(case["g"])
     G = graphs.abstract(vs, ls)
     vi = {id(v): i for i, v in enumerate(vs)}
     li = {id(l): i for i, l in enumerate(ls)}
     f = graphs.make_filter(case["f"])
     ff = graphs.real_filter2(f, vi, li, falsy=graphs.is_falsy(case["f"]))
-    classes = set()
+    classes = {"caching-on" if case.get("cache") else "caching-off"}
     if graphs.is_falsy(case["f"]):
         classes.add("falsy-callable-filter")
     if case["g"].get("eq"):
@@ -119,8 +131,10 @@ def check_case(case):
             if any(acc) and not all(acc):
                 nt = True
                 classes.add("selective-filter")
-        for d in DIRS:
-            for u in UNKS:
+        perm_u = list(itertools.permutations(UNKS))[case.get("order", 0) % 6]
+        perm_d = list(itertools.permutations(DIRS))[(case.get("order", 0) + v) % 6]
+        for d in perm_d:
+            for u in perm_u:
                 lenient = []
                 try:
                     exp = ref_neighbors(G, v, d, u, f, lenient=lenient)
